@@ -17,6 +17,7 @@
 package dispatch
 
 import (
+	"bytes"
 	"encoding/json"
 	"fmt"
 	"os"
@@ -397,6 +398,7 @@ type World struct {
 	gate    chan struct{} // callback 7 is slow: it blocks until the current operation waits for quiescence
 	local   *spine.DeviceLocal
 	ents    map[string]api.EntityLocalInterface
+	removed map[string]bool // entities taken out of the device again (their objects live on)
 	peers   map[int64]*peerRec
 }
 
@@ -412,7 +414,7 @@ func (wr *writer) WriteShipMessageWithPayload(msg []byte) {
 }
 
 func New() *World {
-	w := &World{ents: map[string]api.EntityLocalInterface{}, peers: map[int64]*peerRec{}}
+	w := &World{ents: map[string]api.EntityLocalInterface{}, removed: map[string]bool{}, peers: map[int64]*peerRec{}}
 	// device model "77": the manufacturer data of DeviceClassification decode to token 77
 	w.local = spine.NewDeviceLocal("brand", "77", "serial", "code", "d0", model.DeviceTypeTypeEnergyManagementSystem, model.NetworkManagementFeatureSetTypeSmart)
 	w.ents[ekey([]int64{0})] = w.local.Entity([]model.AddressEntityType{0})
@@ -660,7 +662,8 @@ type Dgram struct {
 	Src, Dst FAddr
 	Ctr      int64
 	Ref      int64 // 0 none, r+1
-	Ack      bool
+	Ack      bool  // ackRequest: true
+	AckFalse bool  // ackRequest present and false (only when !Ack); neither: the element is absent
 	Result   bool  // classifier result
 	Err      int64 // resultData.errorNumber
 	Cls      int64 // 0 read 1 reply 2 notify 3 write 4 call
@@ -681,7 +684,11 @@ func OpInbound(p int64, d Dgram) hx.Zs {
 	z := hx.Zs{8, p}
 	z = append(z, d.Src.Enc()...)
 	z = append(z, d.Dst.Enc()...)
-	z = append(z, d.Ctr, d.Ref, b2i(d.Ack))
+	ack := b2i(d.Ack)
+	if !d.Ack && d.AckFalse {
+		ack = 2
+	}
+	z = append(z, d.Ctr, d.Ref, ack)
 	if d.Result {
 		return append(z, 0, d.Err, d.Fct, 0)
 	}
@@ -707,7 +714,9 @@ func (r *rd) dgram() Dgram {
 	d.Dst = r.faddr()
 	d.Ctr = r.n()
 	d.Ref = r.n()
-	d.Ack = r.b()
+	ack := r.n()
+	d.Ack = ack == 1
+	d.AckFalse = ack == 2
 	if r.n() == 0 {
 		d.Result = true
 		d.Err = r.n()
@@ -761,6 +770,8 @@ func (d Dgram) datagram() model.DatagramType {
 	}
 	if d.Ack {
 		h.AckRequest = util.Ptr(true)
+	} else if d.AckFalse {
+		h.AckRequest = util.Ptr(false)
 	}
 	var cmd model.CmdType
 	if d.Result {
@@ -956,11 +967,25 @@ func (w *World) callback(i int64) func(api.ResponseMessage) {
 	return w.cb7
 }
 
-// settle waits until the callback goroutines spawned by the last operation (`go cb(msg)` inside
-// the stack) have finished: the number of goroutines is back at what it was before the operation.
-// No timing is involved (a fixed quiet period can be outrun on a loaded machine: an invocation
-// then shows up one operation late); a goroutine that does not finish within 30 s is reported as
-// an observation outside the vocabulary.
+// libGoroutines counts the live goroutines that were started by the stack itself (`go cb(msg)` and the
+// like): those whose creation site, as printed by runtime.Stack, lies in spine-go.  Goroutines of the
+// harness (hx runs every operation on a goroutine of its own and the previous one may still be on its
+// way out) do not count, which a plain runtime.NumGoroutine() comparison cannot tell apart.
+var stackBuf = make([]byte, 1<<16)
+
+func libGoroutines() int {
+	for {
+		n := runtime.Stack(stackBuf, true)
+		if n < len(stackBuf) {
+			return bytes.Count(stackBuf[:n], []byte("created by github.com/enbility/spine-go/"))
+		}
+		stackBuf = make([]byte, 2*len(stackBuf))
+	}
+}
+
+// settle lets the slow callback proceed and waits until the goroutines the stack spawned during the
+// operation (the callbacks) have finished.  No timing is involved; a goroutine that does not finish
+// within 30 s is reported as an observation outside the vocabulary.
 func (w *World) settle(base int) {
 	w.mu.Lock()
 	if w.gate != nil {
@@ -972,7 +997,10 @@ func (w *World) settle(base int) {
 		return
 	}
 	deadline := time.Now().Add(30 * time.Second)
-	for i := 0; runtime.NumGoroutine() > base; i++ {
+	for i := 0; ; i++ {
+		if (i > 200 || runtime.NumGoroutine() <= base+1) && libGoroutines() == 0 {
+			return
+		}
 		if i < 100 {
 			runtime.Gosched()
 			continue
@@ -1167,6 +1195,12 @@ func (w *World) Exec(op hx.Zs) []hx.Zs {
 		}
 		fl.AddResultCallback(w.callback(cb))
 		w.nCbs++
+	case 14: // RemoveLocalEntity (never the device information entity; an address is not reused afterwards)
+		e := r.eaddr()
+		if ent := w.ents[ekey(e)]; ent != nil && !w.removed[ekey(e)] && !(len(e) == 1 && e[0] == 0) {
+			w.local.RemoveEntity(ent)
+			w.removed[ekey(e)] = true
+		}
 	case 13: // SeqArrive: arrivals back to back, the callbacks they start are not waited for in between
 		n := r.n()
 		for i := int64(0); i < n; i++ {
@@ -1317,6 +1351,8 @@ func account(op hx.Zs, out []hx.Zs) {
 	}
 	if d.Ack {
 		stats["datagram:ackRequest"]++
+	} else if d.AckFalse {
+		stats["datagram:ackRequest-false"]++
 	}
 	if d.Ref == 0 {
 		stats["datagram:without-reference"]++
